@@ -33,6 +33,7 @@ impl SubCheck for BfsOrder {
     fn check(&self, case: &GCase, cov: &mut Cov) -> Result<(), Fail> {
         let g = &case.g;
         let gm = GM::new(g);
+        let gm_ref = GM::new(g);
         let r = g.reach();
         let out = run_checker(gm, &case.cfg, &PROP_NAMES, None, true, Duration::from_secs(120));
         if out.gave_up {
@@ -46,6 +47,10 @@ impl SubCheck for BfsOrder {
             let len = v.path.len() - 1;
             ensure!(len >= prev, "c13/evaluation-order-not-by-depth", "visit #{} (state {}) has path length {} after a visit with path length {}", i, last, len, prev);
             prev = len;
+            // a "path" is only a shortest path if it is a path: every step a transition of the model
+            if let Err(f) = validate_steps(&gm_ref, &v.path) {
+                fail!(format!("c13/visitor-{}", f.sig), "visit #{} (state {}): {}", i, last, f.detail);
+            }
             match r.dist[last as usize] {
                 Some(d) => ensure!(d as usize == len, "c13/visitor-path-not-shortest", "state {} shown with a path of {} transitions, its distance is {}", last, len, d),
                 None => fail!("c13/unreachable-state-evaluated", "state {} is not reachable", last),
@@ -61,6 +66,13 @@ impl SubCheck for BfsOrder {
                 let want_on = p.exp == Exp::Sometimes;
                 let best = r.set.iter().filter(|s| p.on.contains(s) == want_on).filter_map(|s| r.dist[*s as usize]).min();
                 let got = path.clone().into_actions().len();
+                match validate_path(&gm_ref, path) {
+                    Err(f) => fail!(format!("c13/witness-{}", f.sig), "path reported for {}: {}", PROP_NAMES[k], f.detail),
+                    Ok(states) => {
+                        let end = states.last().unwrap().0;
+                        ensure!(p.on.contains(&end) == want_on, "c13/witness-does-not-end-in-a-witnessing-state", "path reported for {} ends in state {}", PROP_NAMES[k], end);
+                    }
+                }
                 match best {
                     None => fail!("c13/discovery-without-witness", "property {} has a discovery but no witness is reachable", PROP_NAMES[k]),
                     Some(b) => {
